@@ -181,6 +181,12 @@ def PDict.get (d : PDict α) (k : String) : α :=
 
 def PDict.has (d : PDict α) (k : String) : Bool := d.any (fun kv => kv.1 == k)
 
+/-- `d[k] = v` / `dict(d, k=v)`: the new entry shadows any older one (`get` takes the first match) -/
+def PDict.set (d : PDict α) (k : String) (v : α) : PDict α := (k, v) :: d
+
+/-- `d.pop(k)` as far as the remaining dictionary is concerned -/
+def PDict.erase (d : PDict α) (k : String) : PDict α := d.filter fun kv => !(kv.1 == k)
+
 def sersicOf (d : PDict α) (flux rEff n ellip : α) : SersicP α :=
   ⟨d.get "xc", d.get "yc", flux, rEff, n, ellip, d.get "theta"⟩
 
